@@ -61,6 +61,29 @@ impl Proj {
     }
 }
 
+/// Pool stress shape: many independent steps (each with its own source) in one shallow pool,
+/// so that a second invocation has clean and dirty steps of the same pool side by side.
+pub fn gen_pool_stress(rng: &mut Rng) -> Proj {
+    let mut p = Proj::default();
+    let depth = rng.range(1, 2);
+    p.pools.push(("p0".into(), depth));
+    let second_pool = rng.chance(1, 3);
+    if second_pool { p.pools.push(("p1".into(), rng.range(1, 2))); }
+    let nb = rng.range(4, 9);
+    p.sources = (0..nb).map(|i| format!("s{}", i)).collect();
+    for i in 0..nb {
+        let mut b = PBuild::default();
+        b.outs = vec![format!("o{}", i)];
+        b.n_explicit_outs = 1;
+        b.expl = vec![format!("s{}", i)];
+        b.phony = rng.chance(1, 10);
+        b.pool = Some(if second_pool && rng.chance(1, 3) { "p1".into() } else if rng.chance(1, 8) { "console".into() } else { "p0".into() });
+        if i > 0 && rng.chance(1, 5) { b.oo.push(format!("o{}", rng.below(i))); }
+        p.builds.push(b);
+    }
+    p
+}
+
 pub fn gen_proj(rng: &mut Rng, allow_cycles: bool) -> Proj {
     let mut p = Proj::default();
     let npools = rng.below(4);
@@ -191,8 +214,9 @@ pub fn run(ctx: &mut Ctx) {
     let mut produced = 0;
     while produced < ncases {
         tp.reset();
-        let allow_cycles = ctx.rng.chance(1, 6);
-        let proj = gen_proj(&mut ctx.rng, allow_cycles);
+        let stress = ctx.rng.chance(1, 5);
+        let allow_cycles = !stress && ctx.rng.chance(1, 6);
+        let proj = if stress { ctx.count("pool_stress_projects"); gen_pool_stress(&mut ctx.rng) } else { gen_proj(&mut ctx.rng, allow_cycles) };
         let text = proj.manifest();
         { let mut c = clock.lock().unwrap(); *c += 1; write_file(std::path::Path::new("build.ninja"), text.as_bytes(), *c); }
         let missing_src = if ctx.rng.chance(1, 15) { Some(ctx.rng.below(proj.sources.len())) } else { None };
@@ -201,7 +225,7 @@ pub fn run(ctx: &mut Ctx) {
             let mut c = clock.lock().unwrap(); *c += 1;
             write_file(std::path::Path::new(s), b"src", *c);
         }
-        let ninv = ctx.rng.range(1, 3);
+        let ninv = if stress { ctx.rng.range(2, 3) } else { ctx.rng.range(1, 3) };
         for inv in 0..ninv {
             if inv > 0 {
                 // perturb: touch sources, delete/touch outputs
@@ -227,8 +251,9 @@ pub fn run(ctx: &mut Ctx) {
                     targets.push(match ctx.rng.below(8) { 0 => format!("./{}", o), 1 => format!("x/../{}", o), 2 => format!("nosuch{}", ctx.rng.below(3)), 3 => proj.sources[0].clone(), _ => o });
                 }
             }
+            if stress { targets.clear(); }
             let spec = InvSpec {
-                par: ctx.rng.range(1, 4),
+                par: if stress { ctx.rng.range(3, 4) } else { ctx.rng.range(1, 4) },
                 k: match ctx.rng.below(4) { 0 | 1 => None, _ => Some(ctx.rng.range(1, 3)) },
                 adopt: ctx.rng.chance(1, 25),
                 targets,
